@@ -100,15 +100,36 @@ def run(prog, rep, tier, repo):
     a, c = forms.get('acf'), forms.get('acovf')
     if a is not None and c is not None and len(a) == 1 and len(c) == 1 and not has_top(a) and not has_top(c):
         ea, ec = next(iter(a)), next(iter(c))
-        ok = ea[0] == 'b' and ea[1] == 'Div' and ea[2] == ec
-        den = ea[3] if ea[0] == 'b' else None
-        # denominator = sum (x - mean)^2 / n : the lag-0 form of the numerator's product
+
+        def flat(e):
+            """multiplicative normal form: (numerator factors, denominator factors), literal 1.0 dropped"""
+            if isinstance(e, tuple) and e[0] == 'b' and e[1] == 'Mul':
+                n1, d1 = flat(e[2]); n2, d2 = flat(e[3])
+                return n1 + n2, d1 + d2
+            if isinstance(e, tuple) and e[0] == 'b' and e[1] == 'Div':
+                n1, d1 = flat(e[2]); n2, d2 = flat(e[3])
+                return n1 + d2, d1 + n2
+            if e == ('c', 1.0):
+                return [], []
+            return [e], []
+
+        def cancel(n, d):
+            n, d = list(n), list(d)
+            for x in list(n):
+                if x in d:
+                    n.remove(x); d.remove(x)
+            return n, d
+        na, da = cancel(*flat(ea))
+        nc, dc = cancel(*flat(ec))
+        # acf = S_k / S_0 after cancelling the common 1/n; acovf = S_k / n with the same S_k
+        ok = len(na) == 1 and len(da) == 1 and na[0][0] == 'red' and da[0][0] == 'red' and len(nc) == 1 and nc[0] == na[0]
         okd = False
-        if den is not None and den[0] == 'b' and den[1] == 'Div' and den[2][0] == 'red':
-            sq = [x for x in den[2][2]]
-            num_prod = [x for x in _subexprs(ec) if x[0] == 'b' and x[1] == 'Mul' and x[2][0] == 'b' and x[2][1] == 'Sub']
-            if len(sq) == 1 and sq[0][0] == 'm' and sq[0][1] == 'powi' and num_prod:
-                okd = sq[0][2] == num_prod[0][2] and num_prod[0][2] == num_prod[0][3]
+        if ok:
+            sk = [x for x in na[0][2]]
+            s0 = [x for x in da[0][2]]
+            if len(sk) == 1 and len(s0) == 1 and sk[0][0] == 'b' and sk[0][1] == 'Mul' and sk[0][2] == sk[0][3] and sk[0][2][0] == 'b' and sk[0][2][1] == 'Sub':
+                cen = sk[0][2]
+                okd = (s0[0][0] == 'm' and s0[0][1] == 'powi' and s0[0][2] == cen) or (s0[0] == sk[0])
         if ok and okd:
             rep.ok('acf-normalised', key, 'acf = acovf form / (sum (x - mean)^2 / n): numerator at lag 0 equals the denominator, so acf(., 0) = 1')
         else:
